@@ -43,6 +43,9 @@
 
 #include "json.h"
 #include "json_object_private.h"
+#include <sys/mman.h>
+#include <unistd.h>
+#include "json_util.h"
 #include "linkhash.h"
 
 #define MAXN 16   /* threads */
@@ -298,6 +301,25 @@ static void do_op(char op, int n)
 			bad = 1;
 		if (c && json_object_put(c) != 1)
 			bad = 1;
+		/* ... and through a private descriptor: write the tree out, read it back (json_util.c: the read loop, its
+		 * buffer, the last-error text are per call / per thread, never shared between threads on disjoint trees) */
+		/* (containers only: a bare number at top level is not complete before end of input) */
+		int fd = (json_object_is_type(o, json_type_object) || json_object_is_type(o, json_type_array)) ? memfd_create("thr", 0) : -1;
+		if (fd >= 0)
+		{
+			if (json_object_to_fd(fd, o, JSON_C_TO_STRING_PLAIN) != 0 || lseek(fd, 0, SEEK_SET) != 0)
+				bad = 1;
+			struct json_object *c2 = json_object_from_fd(fd);
+			if (!c2 || !json_object_equal(o, c2))
+				bad = 1;
+			if (c2 && json_object_put(c2) != 1)
+				bad = 1;
+			close(fd);
+			/* a file that cannot be opened: NULL, and this thread's own message */
+			if (json_object_from_file("/nonexistent/thr.json") != NULL || !json_util_get_last_err() ||
+			    !strstr(json_util_get_last_err(), "/nonexistent/thr.json"))
+				bad = 1;
+		}
 		if (bad)
 			__atomic_fetch_add(&xfail, 1, __ATOMIC_SEQ_CST);
 	}
